@@ -285,34 +285,81 @@ func genWorld(r *hx.Rng, dist map[string]int) string {
 	sb.WriteString("world")
 	tok := func() string { return strconv.Itoa(r.Intn(4)) }
 	acc := func() string { return strconv.Itoa(r.Intn(3)) }
-	amt := func() string {
+	var last []*big.Int // amounts written so far: subtractions are chosen around them so that both outcomes occur
+	written := map[string]*big.Int{}
+	var wkeys []string
+	amt := func(forSub bool) string {
 		if r.Chance(1, 7) {
 			return "0"
+		}
+		if forSub && len(last) > 0 && r.Chance(3, 4) {
+			v := new(big.Int).Set(last[r.Intn(len(last))])
+			switch r.Intn(4) {
+			case 0:
+				v.Rsh(v, 1)
+			case 1:
+				v.Add(v, big.NewInt(1))
+			case 2:
+				v.Sub(v, big.NewInt(1))
+			}
+			if v.Sign() < 0 {
+				v.SetInt64(0)
+			}
+			return v.String()
 		}
 		v := genNat(r, dist)
 		if r.Chance(1, 14) {
 			v.Neg(v)
 		}
+		last = append(last, new(big.Int).Abs(v))
 		return v.String()
+	}
+	bindStep := func() {
+		d := int64(r.Pick(0, 0, 18, 18, 6, 8, 1, 17, 19, 27))
+		if r.Chance(1, 5) {
+			d = genDecimals(r)
+			if d < 0 {
+				d = 0
+			}
+		}
+		sb.WriteString(" b" + tok() + ":" + strconv.FormatInt(d, 10))
+	}
+	// about half of the tokens are bound up front, so that bound and unbound paths get a similar share
+	for i := r.Intn(3); i > 0; i-- {
+		bindStep()
 	}
 	n := 2 + r.Intn(9)
 	for i := 0; i < n; i++ {
 		switch r.Intn(9) {
-		case 0, 1:
-			d := int64(r.Pick(0, 0, 18, 18, 6, 8, 1, 17, 19, 27))
-			if r.Chance(1, 5) {
-				d = genDecimals(r)
-				if d < 0 {
-					d = 0
+		case 0:
+			bindStep()
+		case 1, 2, 3:
+			k, a := tok()+":"+acc(), amt(false)
+			sb.WriteString(" s" + k + ":" + a)
+			if v, ok := parseBig(a); ok {
+				if _, seen := written[k]; !seen {
+					wkeys = append(wkeys, k)
 				}
+				written[k] = v.Abs(v)
 			}
-			sb.WriteString(" b" + tok() + ":" + strconv.FormatInt(d, 10))
-		case 2, 3:
-			sb.WriteString(" s" + tok() + ":" + acc() + ":" + amt())
 		case 4:
-			sb.WriteString(" a" + tok() + ":" + acc() + ":" + amt())
+			sb.WriteString(" a" + tok() + ":" + acc() + ":" + amt(false))
 		case 5, 6:
-			sb.WriteString(" u" + tok() + ":" + acc() + ":" + amt())
+			if len(wkeys) > 0 && r.Chance(3, 4) { // subtract from a pair that holds something, around what it holds
+				k := wkeys[r.Intn(len(wkeys))]
+				v := new(big.Int).Set(written[k])
+				switch r.Intn(4) {
+				case 0:
+					v.Rsh(v, 1)
+				case 1:
+					v.Add(v, pow10(18))
+				case 2:
+					v.Rsh(v, 3)
+				}
+				sb.WriteString(" u" + k + ":" + v.String())
+				break
+			}
+			sb.WriteString(" u" + tok() + ":" + acc() + ":" + amt(true))
 		default:
 			sb.WriteString(" g" + tok() + ":" + acc())
 		}
@@ -360,4 +407,143 @@ func genGrowthOp(r *hx.Rng, dist map[string]int) string {
 	default:
 		return "rawbal " + genInt(r, dist).String()
 	}
+}
+
+// branchTags names the branches of the real code an op steers into, judged from the input's shape (and the
+// answer class): printed into the evidence so that a branch the stream never reaches is visible.
+func branchTags(op, res string) []string {
+	w := strings.Fields(op)
+	var out []string
+	amount := func(prefix, s string) {
+		t := strings.TrimLeft(s, "+-")
+		switch {
+		case s == "":
+			out = append(out, prefix+"empty-string")
+		case strings.EqualFold(t, "inf") && len(s) <= 4:
+			out = append(out, prefix+"inf")
+		case strings.ContainsAny(t, "pP"):
+			out = append(out, prefix+"p-exponent")
+		case strings.ContainsAny(t, "eE"):
+			i := strings.IndexAny(t, "eE")
+			m, e := t[:i], t[i+1:]
+			f := 0
+			if j := strings.IndexByte(m, '.'); j >= 0 {
+				f = len(m) - j - 1
+			}
+			k, err := strconv.Atoi(e)
+			switch {
+			case err != nil:
+				out = append(out, prefix+"e-exponent:unparsable")
+			case k-f == 0:
+				out = append(out, prefix+"exp5=0")
+			case k-f < 0 && f-k <= 27:
+				out = append(out, prefix+"exp5<0:table")
+			case k-f < 0 && f-k <= 248:
+				out = append(out, prefix+"exp5<0:loop-exact")
+			case k-f < 0:
+				out = append(out, prefix+"exp5<0:loop-rounded")
+			case k-f <= 27:
+				out = append(out, prefix+"exp5>0:table")
+			case k-f <= 248:
+				out = append(out, prefix+"exp5>0:loop-exact")
+			default:
+				out = append(out, prefix+"exp5>0:loop-rounded")
+			}
+		default:
+			f := 0
+			if j := strings.IndexByte(t, '.'); j >= 0 {
+				f = len(t) - j - 1
+			}
+			switch {
+			case f == 0:
+				out = append(out, prefix+"plain:f=0")
+			case f <= 18:
+				out = append(out, prefix+"plain:f=1-18")
+			case f <= 27:
+				out = append(out, prefix+"plain:f=19-27")
+			case f <= 248:
+				out = append(out, prefix+"plain:f=28-248")
+			default:
+				out = append(out, prefix+"plain:f>248")
+			}
+		}
+	}
+	if len(w) == 0 {
+		return nil
+	}
+	switch w[0] {
+	case "parse", "pf", "size":
+		if b, err := hx.UnHex(w[1]); err == nil {
+			amount(w[0]+"/", string(b))
+			if strings.HasPrefix(res, "err") {
+				out = append(out, w[0]+"/answer:err")
+			}
+		}
+	case "decode":
+		if len(w) == 6 {
+			gl, _ := hx.UnHex(w[3])
+			abi, _ := hx.UnHex(w[5])
+			switch {
+			case string(gl) == "" || string(gl) == "0":
+				out = append(out, "decode/gas:default-p017="+w[2])
+			default:
+				if _, err := strconv.ParseUint(string(gl), 10, 64); err != nil {
+					out = append(out, "decode/gas:parse-error")
+				} else {
+					out = append(out, "decode/gas:number")
+				}
+			}
+			if string(abi) == "" || string(abi) == "0x0" {
+				out = append(out, "decode/abi:empty-p005="+w[1])
+			} else {
+				out = append(out, "decode/abi:fromhex")
+			}
+			out = append(out, "decode/answer:"+strings.Fields(res + " x")[0])
+		}
+	case "world":
+		bound := map[string]bool{}
+		for _, st := range w[1:] {
+			f := strings.Split(st[1:], ":")
+			if st[0] == 'b' {
+				if bound[f[0]] {
+					out = append(out, "world/bind:refused")
+				} else {
+					out = append(out, "world/bind:new")
+				}
+				bound[f[0]] = true
+				continue
+			}
+			path := "unbound"
+			if bound[f[0]] {
+				path = "bound"
+			}
+			out = append(out, "world/"+string(st[0])+":"+path)
+		}
+		for _, t := range strings.Fields(res) {
+			if strings.HasPrefix(t, "u:0") {
+				out = append(out, "world/sub:refused")
+			} else if strings.HasPrefix(t, "u:1") {
+				out = append(out, "world/sub:done")
+			}
+		}
+	case "xfer":
+		out = append(out, "xfer/"+strings.Join(strings.Fields(res + " x x")[1:2], ""))
+	case "ft":
+		for _, t := range strings.Fields(res) {
+			if strings.HasPrefix(t, "u:0") {
+				out = append(out, "ft/sub:refused")
+			} else if strings.HasPrefix(t, "u:1") {
+				out = append(out, "ft/sub:done")
+			}
+		}
+	case "stake":
+		if n, err := strconv.ParseUint(w[1], 10, 64); err == nil {
+			if n < 1<<53 {
+				out = append(out, "stake/exact-domain")
+			} else {
+				out = append(out, "stake/rounded-domain")
+			}
+		}
+	}
+	return out
 }
